@@ -92,6 +92,29 @@ def check(ctx, need):
                 if nm == 'threaded':
                     ok = ok and val == 'Write::write(stream, write_directive@Some.0)'
         ctx.ob(ok, '%s: the counter advances by exactly the count the write returned (%s)' % (nm, [show(e) for _, e in incs]), 'cursor|%s|advance' % nm, loc=v.loc(incs[0][0]) if incs else v.loc())
+        if nm == 'tokio':
+            # (b') the write arm of the select! must be cancellation safe and report the transport's own count: the helper awaits
+            # exactly one AsyncWriteExt::write (one poll_write; dropping the future loses nothing) and yields its result unchanged
+            cw = find_one(F, 'client::asynchronous::tokio::conditional_write::{closure#0}')
+            okw = cw is not None
+            if okw:
+                ctx.touch(cw)
+                w_ = [c for c in cw.calls() if c.nfn.startswith('tokio::io::AsyncWriteExt::') or c.nfn.startswith('tokio::io::AsyncReadExt::')]
+                polls = [c for c in cw.calls() if c.nfn.endswith('::poll')]
+                rv_ = [show(e) for b, e in prims.ret_variants(cw) if 'Option::Some' in show(e)]
+                okw = len(w_) == 1 and w_[0].nfn == 'tokio::io::AsyncWriteExt::write' and show(w_[0].arg(0)) == 'writer' and show(w_[0].arg(1)) == 'data@Some.0' \
+                    and len(polls) == 1 and 'tokio::io::util::write::Write<' in polls[0].fn \
+                    and rv_ == ['Poll::Ready{0: Option::Some{0: (Future::poll(Pin::new_unchecked(__awaitee), _task_context))@Ready.0}}']
+            ctx.ob(okw, 'tokio: the write arm awaits a single AsyncWriteExt::write of the pending slice and yields its byte count unchanged (cancel-safe inside select!)', 'cursor|tokio|cancel-safe-write', loc=cw.loc() if cw else v.loc())
+            UNSAFE = ('write_all', 'write_all_buf', 'write_buf', 'read_exact', 'read_to_end', 'read_to_string', 'read_buf', 'read_line', 'read_until', 'copy', 'copy_buf')
+            bad = []
+            for bv in F.fns_in('client/asynchronous/tokio/mod.rs'):
+                if 'process_connected' not in bv.path and 'conditional_write' not in bv.path:
+                    continue    # e.g. the HTTP proxy handshake, which runs before the MQTT byte stream exists and is dropped as a whole when cancelled
+                for c in bv.calls():
+                    if (c.nfn.startswith('tokio::io::AsyncWriteExt::') or c.nfn.startswith('tokio::io::AsyncReadExt::') or c.nfn.startswith('tokio::io::AsyncBufReadExt::') or c.nfn.startswith('tokio::io::copy')) and c.nfn.split('::')[-1] in UNSAFE:
+                        bad.append('%s in %s' % (short(c.nfn), short(bv.path)))
+            ctx.ob(not bad, 'tokio: no I/O helper documented as not cancellation safe (write_all, read_exact, ...) is used by the connected loop, whose I/O futures live in select! arms %s' % bad, 'cursor|tokio|no-cancel-unsafe-io', loc=v.loc())
         # (c) clear/reset/should_flush under counter == len
         EQ = r'^\(cumulative_bytes_written == Vec::len\(outbound_data\)\)$'
         clears = [c for c in v.calls('Vec::clear') if show(c.arg(0)) == 'outbound_data']
